@@ -45,7 +45,7 @@ func (c08) NumCases(tier string, _ int64) int {
 	if tier == "thorough" {
 		return 100000
 	}
-	return 6000
+	return 12000
 }
 func (c08) Exhaustive(string) bool { return false }
 func (c08) Floors(string) []runner.Floor {
